@@ -1,6 +1,8 @@
 package main
 
 import (
+	"crypto/sha256"
+	"encoding/hex"
 	"regexp"
 	"go/ast"
 	"go/token"
@@ -566,6 +568,15 @@ func runCheck(o *Options) (int, *Evidence) {
 		allJobs = append(allJobs, sq.j)
 	}
 	d.solveAll(allJobs, 16)
+	if o.dump {
+		// index of the kept query files: file name, kind, expectation, obligation
+		var ix strings.Builder
+		for _, j := range allJobs {
+			h := sha256.Sum256([]byte(j.text))
+			fmt.Fprintf(&ix, "%s.smt2\t%s\t%s\t%s\t%s\n", hex.EncodeToString(h[:])[:24], j.q.Kind, j.q.Expect, j.res.Status, j.q.Ob)
+		}
+		_ = os.WriteFile(filepath.Join(tmp, "INDEX.tsv"), []byte(ix.String()), 0o644)
+	}
 	// C16, rule SE (DESIGN.md Appendix B): every feasible path through one iteration of an
 	// unbounded loop passes a poll of the stop signals whose stop branch leaves the loop.
 	type seLoop struct {
